@@ -18,7 +18,7 @@ VARIABLES l, fails
 vars == <<l, fails>>
 
 Informational(sc) == sc.flag \in {"version", "help"}   \* -version, -h: print and exit 0, nothing else
-PriorIsFile(sc) == sc.prior \in {"own", "ownnoop", "ownlong", "ownstub", "owncase", "older", "garbage", "empty"}
+PriorIsFile(sc) == sc.prior \in {"own", "ownnoop", "ownlong", "ownstub", "owncase", "older", "garbage", "empty", "danglink"}
 
 (* C17 *)
 FailureWritesNothing(r) == LET o == r.obs sc == r.sc IN
@@ -73,7 +73,7 @@ C19(r) == LET o == r.obs IN
 
 (* C15 *)
 C15(r) == LET o == r.obs sc == r.sc IN
-    /\ (sc.prior = "own" /\ ~sc.rm /\ sc.out = "file" /\ o.exit = 0 /\ sc.args = "ok") => o.outSame           \* own output is a fixed point
+    /\ (sc.prior = "own" /\ ~sc.rm /\ sc.out = "file" /\ o.exit = 0 /\ sc.args = "ok" /\ ~sc.stub) => o.outSame           \* own output is a fixed point
     /\ o.secondRan => o.secondSame     \* whatever was there before: what moq just wrote, left in place, is reproduced by the same command
     /\ (sc.rm /\ sc.out \in {"file", "otherpkg"} /\ PriorIsFile(sc) /\ sc.fault = "none" /\ sc.args \in {"ok", "ok2", "okalias"} /\ sc.flag = "none")
           => (o.exit = 0 /\ o.outEqualsRef /\ (o.straceOK => o.unlinkBeforeLoad))            \* -rm: prior content irrelevant
@@ -83,8 +83,8 @@ C15(r) == LET o == r.obs sc == r.sc IN
 C16(r) == (r.sc.prior = "ownnoop" /\ r.sc.out = "file" /\ r.obs.exit = 0 /\ r.sc.flag = "none") => r.obs.outEqualsRef
 
 (* C07 at the command line: -stub (or its absence) is honoured whatever an    *)
-(* earlier run with the other setting left at -out                           *)
-C07(r) == (r.sc.prior = "ownstub" /\ r.sc.out # "stdout" /\ r.obs.exit = 0 /\ r.sc.flag = "none") => r.obs.outEqualsRef
+(* earlier run with the other setting, or for an older source, left at -out  *)
+C07(r) == ((r.sc.prior = "ownstub" \/ r.sc.stub) /\ r.sc.out # "stdout" /\ r.obs.exit = 0 /\ r.sc.flag = "none") => r.obs.outEqualsRef
 
 (* C14 at the command line: the same command gives the same bytes whatever   *)
 (* an earlier generation left at -out                                        *)
